@@ -45,7 +45,7 @@ theorem merge_equiv_toks (S : Schema) (s1 s2 m : Step) (d d1 d2 d' : Node)
       obtain ⟨e2, hs2⟩ := apply_addMark_toks S d1 d2 f' t' mk' h2
       obtain ⟨e', hs'⟩ := apply_addMark_toks S d d' _ _ mk' h'
       refine ⟨?_, sameMarkup_join hs' (sameMarkup_trans hs2 hs1)⟩
-      rw [e', e2, e1, sameMarkup_tyOf S hs1, addMarkToks_merge S mk' f t f' t' _ _ hc2 hc3]
+      rw [e', e2, e1, sameMarkup_tyOf' S hs1, addMarkToks_merge S mk' f t f' t' _ _ hc2 hc3]
     · simp at hm
   · -- removeMark / removeMark
     rename_i f t mk f' t' mk'
@@ -59,7 +59,7 @@ theorem merge_equiv_toks (S : Schema) (s1 s2 m : Step) (d d1 d2 d' : Node)
       obtain ⟨e2, hs2⟩ := apply_removeMark_toks S d1 d2 f' t' mk' h2
       obtain ⟨e', hs'⟩ := apply_removeMark_toks S d d' _ _ mk' h'
       refine ⟨?_, sameMarkup_join hs' (sameMarkup_trans hs2 hs1)⟩
-      rw [e', e2, e1, sameMarkup_tyOf S hs1, removeMarkToks_merge S mk' f t f' t' _ _ hc2 hc3]
+      rw [e', e2, e1, sameMarkup_tyOf' S hs1, removeMarkToks_merge S mk' f t f' t' _ _ hc2 hc3]
     · simp at hm
 
 /-- **document-level equivalence** for normal-form results (every library operation returns normal
